@@ -246,7 +246,7 @@ def _trace_check(vd, shape, glob, step, exp, complete):
     got = tr[bad].split()[0] if bad < len(tr) else "end"
     if want == got:  # same name, other occurrence index: the counters are off, not the order
         got += "#"
-    vd.v("trace-order|global=%s|want=%s|got=%s" % (glob, want, got),
+    vd.v("trace-order|global=%s|dirs=%s|want=%s|got=%s" % (glob, dirs_sig(shape, glob), want, got),
          "hook points of a %s run deviate from the documented order at position %d: expected %s, saw %s"
          % (step["kind"], bad, exp[bad] if bad < len(exp) else "<end>", tr[bad] if bad < len(tr) else "<end>"),
          expected=exp[max(0, bad - 4):bad + 3], got=tr[max(0, bad - 4):bad + 3], step=step["kind"])
